@@ -389,7 +389,13 @@ def cell_cases(ctx):
     grids = [((1.0, 1.0), (4, 5)), ((1.0, 1.0), (3, 3)), ((1.0, 1.0, 1.0), (3, 5, 7))]
     if t:
         grids += [((2.0, 1.0), (5, 5)), ((1.0, 1.0, 1.0), (3, 3, 3)), ((1.0, 1.0), (6, 4))]
-    for Ls, counts in grids:
+    # "tight" grids: fewer cells per side than 2 * layers + 1 in the first direction, so that the neighbour layers
+    # reached through the positive and through the negative offsets overlap (the same cell is nearby twice over);
+    # the code accepts such grids, and every partner must still be treated exactly once (seed C10-k)
+    tight = {((1.0, 1.0), (4, 8)): [2], ((1.0, 1.0), (2, 5)): [1]}
+    if t:
+        tight[((1.0, 1.0, 1.0), (4, 7, 3))] = [1, 2]
+    for Ls, counts in grids + list(tight):
         dim = len(Ls)
         side = [Ls[d] / counts[d] for d in range(dim)]
         # critical positions: cell centre, on a cell face, a cell corner, across the periodic face, far away
@@ -399,7 +405,7 @@ def cell_cases(ctx):
                P(2.5, 2.5), P(1.5, 0.5)]
         if t:
             pts += [P(0.999999999, 0.5), P(2.0, 3.0), P(counts[0] - 0.5, counts[1] - 0.5)]
-        layer_opts = [l for l in (0, 1, 2) if all(2 * l + 1 < c for c in counts)] or [0]
+        layer_opts = tight.get((Ls, counts)) or [l for l in (0, 1, 2) if all(2 * l + 1 < c for c in counts)] or [0]
         for layers in layer_opts:
             for cap in (1, 2, -1):
                 for kind in ("atoms", "atoms+filter", "objects", "leaves+filter"):
